@@ -46,8 +46,13 @@ def relevant(pid, dis, job):
             return True
         return "inadmissible" in dis.get("tags", "")
     if k == "MISMATCH":
-        return any(x in kinds for x in dis.get("rest", []))
+        rest = dis.get("rest", [])
+        if all(x == "END" for x in rest):
+            return True  # the model asks for a callback the implementation did not make: no kind to project on, every tie is concerned
+        return any(x in kinds for x in rest)
     if k == "DIFF":
+        if pid == "C05" and dis.get("op", "")[:2] in ("S ", "R ") and any(s in (5, 6, 7, 8, 9, 10) for s in dis.get("sections", [])):
+            return True  # the payload tables and the last-seen table right after a (re)initialisation
         return any(s in secs for s in dis.get("sections", []))
     return True  # panics and model errors concern every property's tie
 
